@@ -595,11 +595,19 @@ def _extreme(ctx, lib, nm, b, op):
         allv |= set(t)
     res = {t for t in allv if not m(t, Agg(V + "::Null"))}
     fold_pat = Call("std::iter::Iterator::fold", Each(("adapt", "skip", ("iter", vals), fs({("const", 1)}))), Each(("elem", vals, 0)), Each(lambda t: t[0] == "closure"))
-    red_pat = Call("std::iter::Iterator::reduce", Each(("iter", vals)), Each(lambda t: t[0] == "closure"))
+    def uncast(t):
+        while t[0] == "cast":
+            t = t[1]
+        return t
+    red_pat = Call("std::iter::Iterator::reduce", Each(("iter", vals)), Each(lambda t: t[0] == "closure" or uncast(t)[0] == "fnitem"))
     ok = bool(res) and all(m(t, fold_pat) or m(t, red_pat) for t in res)
     clo_ok = ok
     for t in res:
         for c in t[2][-1]:
+            if uncast(c)[0] == "fnitem":
+                # reduce(std::cmp::<op>): the function itself is the combining step
+                clo_ok = clo_ok and uncast(c)[1] == f"std::cmp::{op}"
+                continue
             cb = lib.fn(c[1])
             r = Origins(cb, lib).of_local(0) if cb else set()
             direct = ms(r, Call(f"std::cmp::{op}", Each(("param", 2)), Each(("param", 3))))
